@@ -76,6 +76,7 @@ fn dispatch(session: &mut Session, cmd: &J) -> Result<J, String> {
 		"walk" => crate::container::op_walk(cmd),
 		"assemble" => crate::container::op_assemble(cmd),
 		"reader" => crate::container::op_reader(cmd),
+		"big_roundtrip" => crate::container::op_big_roundtrip(cmd),
 		"schema_graph" => {
 			let b = session.schema(&cmd["schema"]);
 			Ok(match b {
